@@ -6,6 +6,7 @@ Only property theorems here; helper lemmas are in Proofs/Geom.lean.
 Quantifiers: ALL rational sizes / radii / centres, ALL `h = tan(θ/2)`, ALL parameters, ALL arc indices.
 -/
 import ShapeVerif.Proofs.Geom
+import ShapeVerif.Gen.Tables
 
 namespace ShapeVerif.C16
 open ShapeVerif ShapeVerif.Geom ShapeVerif.Primitive
@@ -138,5 +139,14 @@ example : wind (Jordan.fromVertices (regular4 (5/2) ⟨1, -2⟩)).edges ⟨1, -2
 example : wind (Jordan.fromVertices (square 3 ⟨1, -2⟩)).edges ⟨10, -2⟩ = 0 := by decide +kernel
 example : evalSeg (arc 5 (1/2) 2) (1/2) = ⟨-171/50, 369/100⟩ := by decide +kernel
 example : evalSeg (arc 5 (1/2) 0) 1 = ⟨3, 4⟩ := by decide +kernel
+
+
+/-! ### tie to the source: the vertex formulas regenerated from `Primitive.square/triangle/regular_polygon` on every run -/
+
+/-- the vertex lists written in primitive.py are the model's (so every theorem above is about the formulas the code contains) -/
+theorem translated_vertex_formulas (s : Rat) (c : Pt) :
+    Gen.squareVertices s c = Primitive.square s c ∧ Gen.triangleVertices s c = Primitive.triangle s c ∧
+    Gen.regular4Vertices s c = Primitive.regular4 s c := by
+  refine ⟨?_, ?_, ?_⟩ <;> simp [Gen.squareVertices, Gen.triangleVertices, Gen.regular4Vertices, Primitive.square, Primitive.triangle, Primitive.regular4]
 
 end ShapeVerif.C16
